@@ -315,21 +315,33 @@ struct Scenario {
     name: &'static str,
     cap: usize,
     threads: Vec<Vec<TOp>>,
+    /// Some(b): this scenario is explored only up to b preemptions even in the thorough tier
+    /// (and skipped in quick); None: follows the tier's bound
+    own_bound: Option<usize>,
 }
 
 fn scenarios() -> Vec<Scenario> {
     let mut v = Vec::new();
     for cap in [1usize, 2] {
-        v.push(Scenario { name: "overlap-2", cap, threads: vec![vec![TOp::Verify(vec![0, 1], true)], vec![TOp::Verify(vec![1, 2], true)]] });
-        v.push(Scenario { name: "same-list-2", cap, threads: vec![vec![TOp::Verify(vec![0, 1], true)], vec![TOp::Verify(vec![0, 1], true)]] });
-        v.push(Scenario { name: "valid-vs-invalid", cap, threads: vec![vec![TOp::Verify(vec![0, 2], true)], vec![TOp::Verify(vec![0, 2], false)]] });
+        v.push(Scenario { name: "overlap-2", cap, threads: vec![vec![TOp::Verify(vec![0, 1], true)], vec![TOp::Verify(vec![1, 2], true)]], own_bound: None });
+        v.push(Scenario { name: "same-list-2", cap, threads: vec![vec![TOp::Verify(vec![0, 1], true)], vec![TOp::Verify(vec![0, 1], true)]], own_bound: None });
+        v.push(Scenario { name: "valid-vs-invalid", cap, threads: vec![vec![TOp::Verify(vec![0, 2], true)], vec![TOp::Verify(vec![0, 2], false)]] , own_bound: None });
         v.push(Scenario {
             name: "two-verifiers+evict-update",
             cap,
             threads: vec![vec![TOp::Verify(vec![0], true), TOp::Verify(vec![1], true)], vec![TOp::Verify(vec![1], true)], vec![TOp::Evict(vec![0, 1]), TOp::Update(2)]],
+            own_bound: None,
+        });
+        // three verifiers with pairwise overlapping two-pair lists (too many interleavings to
+        // exhaust: preemption-bounded even in the thorough tier)
+        v.push(Scenario {
+            name: "three-verifiers-overlap",
+            cap,
+            threads: vec![vec![TOp::Verify(vec![0, 1], true)], vec![TOp::Verify(vec![1, 2], true)], vec![TOp::Verify(vec![2, 0], true)]],
+            own_bound: Some(3),
         });
     }
-    v.push(Scenario { name: "three-single", cap: 2, threads: vec![vec![TOp::Verify(vec![0], true)], vec![TOp::Verify(vec![1], true)], vec![TOp::Verify(vec![2], true)]] });
+    v.push(Scenario { name: "three-single", cap: 2, threads: vec![vec![TOp::Verify(vec![0], true)], vec![TOp::Verify(vec![1], true)], vec![TOp::Verify(vec![2], true)]] , own_bound: None });
     v
 }
 
@@ -417,7 +429,8 @@ fn check_execution(rep: &Report, w: &World, sc_idx: usize, sc: &Scenario, x: &Ex
 }
 
 fn part_s(rep: &Report, w: &Arc<World>) {
-    let scs = scenarios();
+    let thorough = rep.tier == mc::Tier::Thorough;
+    let scs: Vec<Scenario> = scenarios().into_iter().filter(|s| thorough || s.own_bound.is_none()).collect();
     let bound: Option<usize> = rep.tier.pick(Some(3), None);
     let stats: Vec<(usize, sched::ExploreStats)> = scs
         .par_iter()
@@ -433,7 +446,7 @@ fn part_s(rep: &Report, w: &Arc<World>) {
             }
             let make = || make_instance(w, sc);
             let check = |x: &Execution<Vec<bool>>, cache: &Arc<BlsCache>| check_execution(rep, w, i, sc, x, cache);
-            let st = sched::explore(&make, bound, &check);
+            let st = sched::explore(&make, sc.own_bound.or(bound), &check);
             (i, st)
         })
         .collect();
@@ -503,7 +516,9 @@ fn replay(case: &Value) -> String {
             out
         }
         Some("S") => {
-            let sc = scenarios()[case["scenario"].as_u64().unwrap() as usize].clone();
+            let name = case["name"].as_str().unwrap();
+            let cap = case["capacity"].as_u64().unwrap() as usize;
+            let sc = scenarios().into_iter().find(|s| s.name == name && s.cap == cap).expect("scenario");
             let choices: Vec<u32> = case["choices"].as_array().unwrap().iter().map(|x| x.as_u64().unwrap() as u32).collect();
             let (inst, cache) = make_instance(&w, &sc);
             let x = sched::run_schedule(inst, &choices);
